@@ -18,7 +18,7 @@ WRAPS = ["coap_ticks", "coap_socket_send", "coap_socket_recv", "gnutls_handshake
          "gnutls_psk_set_server_credentials_function", "gnutls_psk_set_client_credentials_function",
          "coap_handle_dgram", "coap_dtls_handle_timeout", "coap_retransmit"]
 
-LOSSFREE_KINDS = ("sni-history", "stranger-hello", "inject/in@", "cred/", "sched/plain", "sched/queue3", "sched/queue-mid", "sched/after", "sched/nstart2")
+LOSSFREE_KINDS = ("blockmode/plain", "sni-history", "stranger-hello", "inject/in@", "cred/", "sched/plain", "sched/queue3", "sched/queue-mid", "sched/after", "sched/nstart2")
 
 
 def evaluate(run, model, drv, cases, lines):
@@ -54,6 +54,7 @@ def evaluate(run, model, drv, cases, lines):
     # credential model for every case
     cred = vlib.run_lines_robust(model, [c.cred_line() for c in cases])[0]
     tgs_lines, owner = [], []
+    run_cov_skip = [0]
     for i, (c, o) in enumerate(zip(cases, outs)):
         if o.startswith("CRASH") or o.startswith("<not") or o.startswith("ERROR"):
             continue
@@ -64,8 +65,15 @@ def evaluate(run, model, drv, cases, lines):
             for nm, s in gen_tls.sessions_of(c, o):
                 if amb and nm == "c":
                     continue
+                if nm == "c" and "bm" in c.ops:
+                    # block mode (lg_crcv bookkeeping, Observe cancellation on release) is not in
+                    # the gate model: the client session is judged by the oracle only
+                    run_cov_skip[0] += 1
+                    continue
                 tgs_lines.append(s.line(c.proto))
                 owner.append((i, nm, s))
+    if hasattr(run, "cov"):
+        run.cov["acceptor_skipped_blockmode"] = max(run.cov.get("acceptor_skipped_blockmode", 0), run_cov_skip[0])
     verdicts = vlib.run_lines_robust(model, tgs_lines)[0] if tgs_lines else []
     for (i, nm, s), v in zip(owner, verdicts):
         if v != "ACCEPT":
